@@ -7,7 +7,8 @@ ID = "C02"
 READY = True
 RULE = ("queue: 2-6 events (queue / plain), 0-3 handlers each (sync scripts: wait, clear-own, release k-th outstanding "
         "wait, post queue/plain event to a later event with or without passing the own queue object on, remove a "
-        "handler; add_async_handler coroutines that finish at once or await an environment future), environment "
+        "handler; registered data kwargs colliding with the posted ones, a registered queue object, conditions "
+        "name{k==v}; add_async_handler coroutines that finish at once or await an environment future), environment "
         "scripts run between loop slices at distinct virtual instants (posts of several events at once, releases of "
         "outstanding waits in generated order, removals); non-trivial = at least one wait released by a later "
         "environment step or a queue event nested in a queue-event handler.  mode: a real Mode (use_wait_queue on/off) "
@@ -26,7 +27,7 @@ TRUSTED_BASE = [
     "Mode.start and Mode._started inside the worker process (they call the original code)",
 ]
 ASSUMPTIONS = [
-    "handlers do not raise; conditional handlers and handler kwargs are not modelled",
+    "handlers do not raise; conditions are of the form name{k==v}; handler kwargs/conditions of plain-event handlers are C01's part",
     "liveness (callback exactly once) assumes fair clearing and fresh queues: no handler passes the queue object it was "
     "given on into another queue event (Mode.start did; fixes/C02-mode-start-no-queue-forward.patch)",
     "EventManager.stop() task cancellation and exceptions in coroutine handlers are not covered",
